@@ -1138,6 +1138,113 @@ def _iter_P(shard):
         raise ValueError(shard)
 
 
+# ------------------------------------------------------------------ sequences on ONE pair of objects
+# Every ordered pair (first call, second call) from the measure and transform lists on the SAME two
+# objects: an earlier call must not change what a later one returns.
+SEQ_CMP = [('cmp', m, 'none') for m in RANK_BASED + ['corr', 'cosine', 'corr_cov', 'cosine_cov']] + \
+          [('cmp', 'corr_cov', 'full'), ('cmp', 'cosine_cov', 'full')]
+SEQ_TF = [('tf', 'rank', None), ('tf', 'sqrt', None), ('tf', 'positive', None), ('tf', 'minmax', None),
+          ('tf', 'geodesic', None), ('tf', 'geotop', [0.2, 0.8]), ('tf', 'custom', 'square')]
+SEQ_OPS = [list(o) for o in SEQ_CMP + SEQ_TF]
+# one map of the invariance class of each measure, applied by the harness to the privately kept values
+SEQ_MAP = {'cube': lambda v: v ** 3, '2.5x+7': lambda v: 2.5 * v + 7.0, '3.7x': lambda v: 3.7 * v}
+
+
+def _seq_map_for(method):
+    return 'cube' if method in RANK_BASED else ('2.5x+7' if method in CORR_TYPE else '3.7x')
+
+
+def _seq_name(op):
+    if op[0] == 'cmp':
+        return 'compare:%s%s' % (op[1], '' if op[2] == 'none' else ',sigma_k=' + op[2])
+    return LIBNAME[op[1]]
+
+
+def _seq_call(op, a, b, n_cond, seed):
+    """one library call on the pair (a, b); returns a flat float array"""
+    import rsatoolbox.rdm as rr
+    if op[0] == 'cmp':
+        kw = {}
+        if op[1] in ('corr_cov', 'cosine_cov'):
+            kw['sigma_k'] = _sigma(op[2], n_cond, seed)
+        return np.asarray(rr.compare(a, b, method=op[1], **kw), dtype=float).ravel()
+    out = []
+    for obj in (a, b):
+        if op[1] == 'rank':
+            r = rr.rank_transform(obj)
+        elif op[1] == 'sqrt':
+            r = rr.sqrt_transform(obj)
+        elif op[1] == 'positive':
+            r = rr.positive_transform(obj)
+        elif op[1] == 'minmax':
+            r = rr.minmax_transform(obj)
+        elif op[1] == 'geodesic':
+            r = rr.geodesic_transform(obj)
+        elif op[1] == 'geotop':
+            r = rr.geotopological_transform(obj, op[2][0], op[2][1])
+        else:
+            r = rr.transform(obj, CUSTOM[op[2]])
+        out.append(np.asarray(r.dissimilarities, dtype=float).ravel())
+    return np.concatenate(out)
+
+
+def _seq_objects(X, Y, rep):
+    """fresh objects from private values; returns (a, b, arrays whose bits are watched)"""
+    import rsatoolbox.rdm as rr
+    x0, y0 = X.copy(), Y.copy()
+    if rep == 'array':
+        return x0, y0, [x0, y0]
+    a = rr.RDMs(x0, dissimilarity_measure='Euclidean')
+    b = rr.RDMs(y0, dissimilarity_measure='Euclidean')
+    return a, b, [x0, y0, a.dissimilarities, b.dissimilarities]
+
+
+def run_S(case, ctx, cache=None):
+    """case: {'kind':'S','src':['fill',n_cond,fill,kind],'rep':'rdms'|'array','first':op,'second':op}.
+    first(a, b) then second(a, b) on the same objects: (1) inputs bit-identical after each call,
+    (2) second result == second on fresh objects, (3) == second on fresh objects whose first argument
+    went through a map of the second measure's invariance class (true values, harness-mapped)"""
+    import rsatoolbox.rdm as rr
+    first, second, rep = case['first'], case['second'], case['rep']
+    X, Y = _inv_stacks(case['src'], ctx.seed)
+    X, Y = X[:2], Y[:2]
+    n_cond = ref.n_from_len(X.shape[1])
+    cache = cache if cache is not None else {}
+    tol = TOL_CG if (second[0] == 'cmp' and second[1] in ('corr_cov', 'cosine_cov')) else TOL
+    n1, n2 = _seq_name(first), _seq_name(second)
+    cls2 = 'compare' if second[0] == 'cmp' else 'transform'
+    ctx.case(case)
+    with ctx.guard('sequence|after=%s,then=%s' % (n1, cls2), case):
+        key = ('fresh', tuple(map(str, second)), rep)
+        if key not in cache:
+            a, b, _ = _seq_objects(X, Y, rep)
+            cache[key] = _seq_call(second, a, b, n_cond, ctx.seed)
+            if second[0] == 'cmp':
+                f = SEQ_MAP[_seq_map_for(second[1])]
+                a, b, _ = _seq_objects(f(X.copy()), Y, rep)
+                cache[('inv',) + key[1:]] = _seq_call(second, a, b, n_cond, ctx.seed)
+        a, b, watched = _seq_objects(X, Y, rep)
+        truth = [X, Y, X, Y]
+        for op, nm in ((first, n1), (second, n2)):
+            got = _seq_call(op, a, b, n_cond, ctx.seed)
+            for w, t in zip(watched, truth):
+                if not np.array_equal(w, t, equal_nan=True):
+                    ctx.fail('sequence|call=%s,%s|input-modified' % (nm, rep), case,
+                             'after %s the input holds %s, it was built from %s' % (nm, np.asarray(w).tolist(), t.tolist()))
+                    break
+        ctx.outcome(np.round(np.nan_to_num(got, nan=-7.0, posinf=-8.0), 7).tolist())
+        if not allclose(got, cache[key], tol):
+            ctx.fail('sequence|after=%s,then=%s|result-differs-from-fresh-objects' % (n1, cls2), case,
+                     '%s after %s on the same objects: %s; on fresh objects: %s' % (
+                         n2, n1, got.tolist(), cache[key].tolist()))
+        if second[0] == 'cmp':
+            want = cache[('inv',) + key[1:]]
+            if not allclose(got, want, tol):
+                ctx.fail('sequence|after=%s,then=%s|not-invariant-relative-to-true-values' % (n1, cls2), case,
+                         '%s after %s: %s; %s of the true values with the first argument mapped by %s: %s' % (
+                             n2, n1, got.tolist(), n2, _seq_map_for(second[1]), want.tolist()))
+
+
 # ------------------------------------------------------------------ shards
 def shards(tier, seed):
     th = tier == 'thorough'
@@ -1243,6 +1350,12 @@ def shards(tier, seed):
     # ---- C: corr(_cov) == cosine(_cov) of the mean-centred RDMs, complete and with common missing entries
     for sigma in ('none', 'vector', 'full'):
         out.append({'kind': 'Cset', 'sigma': sigma, 'fills': 4 if th else 2})
+    # ---- S: every ordered pair of calls on one pair of objects
+    for n_cond in (4, 5):
+        for fill in range(3 if th else 1):
+            for vk in ('signed', 'ties', 'nonneg'):
+                for rep in ('rdms', 'array'):
+                    out.append({'kind': 'Sset', 'src': ['fill', n_cond, fill, vk], 'rep': rep})
     # ---- L: spearman == corr of rank-transformed
     out.append({'kind': 'L', 'src': ['alpha', '012^3', [0, 27]]})
     out.append({'kind': 'L', 'src': ['alpha', 'm1012^3', [0, 64]]})
@@ -1349,6 +1462,13 @@ def run_shard(shard, ctx):
                                 break
     elif kind == 'L':
         run_L(shard, ctx)
+    elif kind == 'Sset':
+        ops = SEQ_OPS if shard['rep'] == 'rdms' else [o for o in SEQ_OPS if o[0] == 'cmp']
+        cache = {}
+        for first in ops:
+            for second in ops:
+                run_S({'kind': 'S', 'src': shard['src'], 'rep': shard['rep'], 'first': first, 'second': second},
+                      ctx, cache)
     elif kind == 'Cset':
         for alpha in ('012^3', 'm1012^3'):
             run_C({'kind': 'C', 'src': ['alpha', alpha, [0, len(alphabet_vectors(alpha))]], 'sigma': shard['sigma']}, ctx)
@@ -1391,6 +1511,8 @@ def run_case(case, ctx):
         run_L(case, ctx)
     elif kind == 'C':
         run_C(case, ctx)
+    elif kind == 'S':
+        run_S(case, ctx)
     elif kind == 'P' and 'variant' in case:
         run_P({k: v for k, v in case.items() if k != 'twin'}, ctx)
     elif kind == 'N' and 'variant' in case:
